@@ -296,3 +296,47 @@ Proof.
     destruct (ss_full_step_sample _ _ _ _ _ _ _ _ _ _ Hs) as (_ & _ & Hi). cbn [fst] in *.
     rewrite Hi in IH. replace (k_i (ts_k st) + S n)%nat with (S (k_i (ts_k st)) + n)%nat by lia. exact IH.
 Qed.
+
+(* ---- C12's bookkeeping law on every whole step of the speed-limit simulation (the consist inside) ---- *)
+Theorem sl_full_step_kin (e : Env (F:=R)) pts fmax (s s'' : SLStateR) (c c' : ConsistR) :
+  sl_full_step e pts fmax (s, c) = Ok (s'', c') ->
+  exists raw, kin_law (e_lps e) (sl_st s) (sl_st s'') raw /\
+    (k_speed (ts_k (sl_st s'')) = raw \/
+     (k_speed (ts_k (sl_st s'')) = k_speed_target (ts_k (sl_st s'')) /\
+      almost_eq raw (k_speed_target (ts_k (sl_st s''))) eps8 = true)) /\
+    k_i (ts_k (sl_st s'')) = S (k_i (ts_k (sl_st s))).
+Proof.
+  intros H. destruct (sl_full_step_decomposes _ _ _ _ _ _ _ H) as (s' & c2 & _ & Hs & Hb & _ & _).
+  unfold sl_solve_step in Hs. apply bind_ok in Hs. destruct Hs as ([s1 ax] & Hs & Hq). inversion Hq; subst s1.
+  destruct (sl_solve_step_kin _ _ _ _ _ _ Hs) as (K & _ & Ki & S').
+  exists (ax_speed_raw ax). subst s''. split; [apply kin_law_bump; exact K|]. split; [exact S'|].
+  unfold sl_bump, bump_i. cbn [sl_st ts_k k_i]. rewrite Ki. reflexivity.
+Qed.
+
+(* along a whole run: time advances by the sum of the step sizes, i.e. n * dt (dt is constant), the step
+   counter by n, and the rear stays one train length behind the front *)
+Theorem sl_full_run_clock (e : Env (F:=R)) pts fmax : forall n x x',
+  sl_full_run n e pts fmax x = Ok x' ->
+  let k := ts_k (sl_st (fst x)) in let k' := ts_k (sl_st (fst x')) in
+  k_dt k' = k_dt k /\ k_time k' = k_time k + INR n * k_dt k /\ k_i k' = (k_i k + n)%nat /\
+  ((1 <= n)%nat -> k_offset_back k' = k_offset k' - p_length (ts_p (sl_st (fst x')))) /\
+  ts_p (sl_st (fst x')) = ts_p (sl_st (fst x)).
+Proof.
+  induction n as [|n IH]; intros x x' H; cbn [sl_full_run] in H.
+  - inversion H; subst. cbv zeta. cbn [INR]. repeat split; auto; try lra; try lia.
+  - apply bind_ok in H. destruct H as (x1 & Hs & Hr). specialize (IH _ _ Hr). cbv zeta in IH |- *.
+    destruct x as [s c]. destruct x1 as [s1 c1]. cbn [fst] in *.
+    destruct (sl_full_step_kin _ _ _ _ _ _ _ Hs) as (raw & K & _ & Ki).
+    destruct (sl_full_step_decomposes _ _ _ _ _ _ _ Hs) as (s' & c2 & _ & Hss & Hb & _ & _).
+    unfold sl_solve_step in Hss. apply bind_ok in Hss. destruct Hss as ([sx ax] & Hss & Hq). inversion Hq; subst sx.
+    destruct (sl_solve_step_kin _ _ _ _ _ _ Hss) as (_ & Kdt & _ & _).
+    assert (Hdt1 : k_dt (ts_k (sl_st s1)) = k_dt (ts_k (sl_st s))) by (subst s1; exact Kdt).
+    destruct K as (Kt & _ & _ & Kb & Kp & _).
+    destruct IH as (I1 & I2 & I3 & I4 & I5).
+    split; [rewrite I1; exact Hdt1|]. split.
+    + rewrite I2, Kt, Hdt1. rewrite S_INR. lra.
+    + split; [rewrite I3, Ki; lia|]. split.
+      * intros _. destruct n as [|n']; [|apply I4; lia].
+        cbn [sl_full_run] in Hr. inversion Hr; subst x'. cbn [fst]. exact Kb.
+      * rewrite I5. exact Kp.
+Qed.
